@@ -158,6 +158,32 @@ def species_fields(ssrc):
     return out
 
 
+def distance_repr_decimals():
+    """Distance.__repr__ (values.py) prints round(self, N): -> N"""
+    vsrc = open(os.path.join(REPO, "autode/values.py")).read()
+    cls = find_class(ast.parse(vsrc), "Distance", "values.py")
+    rets = [n for n in ast.walk(find_func(cls.body, "__repr__", "Distance")) if isinstance(n, ast.Return)]
+    if len(rets) == 1:
+        for n in ast.walk(rets[0]):
+            if isinstance(n, ast.Call) and ast.unparse(n.func) == "round" and len(n.args) == 2 \
+                    and ast.unparse(n.args[0]) == "self" and isinstance(n.args[1], ast.Constant) \
+                    and isinstance(n.args[1].value, int) and 0 <= n.args[1].value <= 12:
+                return n.args[1].value
+    raise Untranslatable("Distance.__repr__ is not f'...{round(self, N)}...'")
+
+
+def point_charges_helper(tree):
+    """_point_charges_str must print EVERY charge and coordinate exactly (python floats in a list)."""
+    fns = [n for n in tree.body if isinstance(n, ast.FunctionDef) and n.name == "_point_charges_str"]
+    if len(fns) != 1:
+        raise Untranslatable("_point_charges_str not found")
+    body = [norm(ast.unparse(st)) for st in strip_doc(fns[0].body)]
+    want = [norm("if point_charges is None: return ''"),
+            norm("return str([(pc.charge, *(float(x) for x in pc.coord)) for pc in point_charges])")]
+    if body != want:
+        raise Untranslatable("_point_charges_str: body is not the exact list of (charge, x, y, z) python floats")
+
+
 def constraint_fields(csrc):
     cls = find_class(ast.parse(csrc), "Constraints", "constraints.py")
     fn = find_func(cls.body, "__str__", "Constraints")
@@ -178,6 +204,10 @@ def constraint_fields(csrc):
             elif test == "self.distance is not None":
                 # str({key: round(val, D) for key, val in self.distance.items()})
                 if src in ("str(dict(self.distance))", "str({key: val for (key, val) in self.distance.items()})"):
+                    # the values are Distance objects: their repr is what gets printed
+                    out.append(f"(IDistRound {distance_repr_decimals()})")
+                elif src in ("str({key: float(val) for (key, val) in self.distance.items()})",
+                             "str({key: repr(float(val)) for (key, val) in self.distance.items()})"):
                     out.append("IDistExact")
                 elif isinstance(val, ast.Call) and ast.unparse(val.func) == "str" and len(val.args) == 1 \
                         and isinstance(val.args[0], ast.DictComp):
@@ -242,8 +272,8 @@ def calc_fields(esrc, sp_fields, k_fields):
             out.append("ISolvType")
         elif src == "self.molecule.constraints" and conv in (-1, ord("s"), ord("r")):
             out += k_fields
-        elif src in ("_point_charges_str(self.input.point_charges)", "self._point_charges_str",
-                     "self._point_charges_str()"):
+        elif src == "_point_charges_str(self.input.point_charges)" and conv == -1:
+            point_charges_helper(tree)
             out.append("IPointCharges")
         else:
             raise Untranslatable(f"CalculationExecutor.__str__: hashed piece `{src}` (conversion {conv})")
